@@ -97,9 +97,20 @@ def build_jobs(spec, tier, known, solver):
     return entries
 
 
+# small standard-library packages always loaded from source when selective loading is on, so
+# that a change to /repo that starts calling one of their helpers stays executable
+COMMON_SRC = ["encoding/binary", "math/bits", "slices", "bytes", "errors", "unicode/utf8", "strconv"]
+
+
+def with_common(pk):
+    if not pk:
+        return pk
+    return pk + [c for c in COMMON_SRC if c not in pk]
+
+
 def run_gosx(shard_id, pkg, entries, ov, solver, seed, workdir, src_pkgs=None):
     job = {"dir": HARNESS, "pkg": pkg, "overlay": ov, "solver": solver, "seed": seed,
-           "src_pkgs": [qual(x) for x in (src_pkgs or [])],
+           "src_pkgs": with_common([qual(x) for x in (src_pkgs or [])]),
            "harnesses": [{k: v for k, v in e.items() if not k.startswith("_")} for e in entries]}
     jp = os.path.join(workdir, "job%d.json" % shard_id)
     rp = os.path.join(workdir, "res%d.json" % shard_id)
@@ -152,6 +163,9 @@ def reproduced(finding, report):
     if finding["kind"] == "assert":
         # the same obligation fails natively -- or another obligation of the same harness
         # does on the same inputs (natively some facts are computed rather than assumed)
+        return bool(report.get("failed")) or "panic" in report
+    if "allocation size" in finding.get("msg", ""):
+        # allocation obligations do not panic natively: the harness measures memory use
         return bool(report.get("failed")) or "panic" in report
     # implicit obligations (index, nil, type assertion, division, explicit panic): any native panic
     return "panic" in report
